@@ -22,7 +22,8 @@ pub const KF_UNTITLED: &str = "KF-C09-untitled-documents-cannot-be-refreshed";
 /// (name or uri, language id, file-backed)
 const DOCS: [(&str, &str, bool); 4] = [
     ("a.md", "markdown", true),
-    ("b.txt", "plaintext", true),
+    // a name that a `file:` URI has to escape
+    ("b \u{e9} #1.txt", "plaintext", true),
     ("sub/c.rs", "rust", true),
     ("untitled:Untitled-1", "plaintext", false),
 ];
@@ -78,7 +79,7 @@ pub enum Op {
     DeleteOther { which: u8 },
 }
 
-const OTHER_PATHS: &[&str] = &["a", "sub/c", "su", "b.tx", "sub/c.r"];
+const OTHER_PATHS: &[&str] = &["a", "sub/c", "su", "b \u{e9} #1.tx", "sub/c.r"];
 
 const DICT_VARIANTS: &[&str] = &["", "frobnix\n", "Frobnix\n", "FROBNIX\nqwertzu\n", "frobnix\nzorblaxy\nwibblet\n", "Wibblet\nzorblaxy", "qwertzu\n"];
 
@@ -338,7 +339,16 @@ fn exec_batch(w: &mut World, batch: &[Op], salt: u64, ctx: &mut CaseCtx) -> Resu
                     ctx.class("change_with_a_version_already_used_before_the_document_was_reopened");
                 }
                 w.max_versions[i] = w.max_versions[i].max(w.docs[i].version);
-                w.s.notify("textDocument/didChange", json!({"textDocument": {"uri": uris[i], "version": w.docs[i].version}, "contentChanges": [{"text": t}]}))?;
+                // a client that coalesces edits sends several whole-document changes in one
+                // notification; they apply in order, the last one is the buffer
+                let changes = if *text >= 160 {
+                    ctx.class("change_notification_with_several_content_changes");
+                    let earlier = comment_wrap(DOCS[i].1, TEXTS[(*text as usize / 7) % TEXTS.len()]);
+                    json!([{"text": earlier}, {"text": t}])
+                } else {
+                    json!([{"text": t}])
+                };
+                w.s.notify("textDocument/didChange", json!({"textDocument": {"uri": uris[i], "version": w.docs[i].version}, "contentChanges": changes}))?;
                 expect_pubs[i] += 1;
                 cfg_ops.push((k, i));
             }
@@ -383,7 +393,8 @@ fn exec_batch(w: &mut World, batch: &[Op], salt: u64, ctx: &mut CaseCtx) -> Resu
             }
             Op::DeleteOther { which } => {
                 let p = w.sb.ws_file(OTHER_PATHS[*which as usize % OTHER_PATHS.len()]);
-                let uri = format!("file://{}", p.display());
+                let uri = w.sb.uri(OTHER_PATHS[*which as usize % OTHER_PATHS.len()]);
+                let _ = p;
                 w.s.notify("workspace/didChangeWatchedFiles", json!({"changes": [{"uri": uri, "type": 3}]}))?;
                 // nothing to wait for: no document is affected; a wrong publication shows in the
                 // comparison after the batch. A request behind it makes sure it was processed.
